@@ -34,6 +34,9 @@ func partialFail(key bt.BS, kind int) bt.Filter {
 
 var c17HostileTables = []string{"nul\x00id", strings.Repeat("n", 201), strings.Repeat("m", 200), strings.Repeat("x", 2100), "sub/dir", "..", ".", "", "a b", "ü", "con\\x", "%2F", strings.Repeat("a/", 40) + "z"}
 
+var c17HostileParents = []string{"projects/p/instances/" + strings.Repeat("i", 300), "projects/" + strings.Repeat("p", 201) + "/instances/i", "projects/p/instances/nul\x00x",
+	strings.Repeat("q", 1990), "projects/p/instances/..", "x", "projects/p/instances/i/"}
+
 func genC17() *rapid.Generator[C17Case] {
 	return rapid.Custom(func(t *rapid.T) C17Case {
 		ctx := bt.ProgCtx{Tables: c14Tables[:2], Fams: bt.AllFams, Keys: c14Keys, Quals: c14Quals,
@@ -49,15 +52,21 @@ func genC17() *rapid.Generator[C17Case] {
 			if rapid.IntRange(0, 24).Draw(t, "hostilename") == 0 {
 				// table ids that matter to an engine that turns them into file names: all engines must agree on them
 				id := rapid.SampledFrom(c17HostileTables).Draw(t, "table")
+				parent := ""
+				if rapid.IntRange(0, 2).Draw(t, "hostileparent") == 0 {
+					// the parent is part of the table name (and of the path on disk) as well
+					parent = rapid.SampledFrom(c17HostileParents).Draw(t, "parent")
+					id = rapid.SampledFrom([]string{"t", id}).Draw(t, "tid")
+				}
 				switch rapid.IntRange(0, 4).Draw(t, "hk") {
 				case 0, 1:
-					return bt.Op{K: "CreateTable", Table: id, Fams: fams}
+					return bt.Op{K: "CreateTable", Parent: parent, Table: id, Fams: fams}
 				case 2:
-					return bt.Op{K: "MutateRow", Table: id, Key: "k", Muts: []bt.Mut{{K: "set", Fam: "f", Qual: "q", TS: 1000, Val: "v"}}}
+					return bt.Op{K: "MutateRow", Parent: parent, Table: id, Key: "k", Muts: []bt.Mut{{K: "set", Fam: "f", Qual: "q", TS: 1000, Val: "v"}}}
 				case 3:
-					return bt.Op{K: "ReadRows", Table: id}
+					return bt.Op{K: "ReadRows", Parent: parent, Table: id}
 				default:
-					return bt.Op{K: "DeleteTable", Table: id}
+					return bt.Op{K: "DeleteTable", Parent: parent, Table: id}
 				}
 			}
 			op := bt.GenOp(ctx).Draw(t, "op")
